@@ -1746,8 +1746,15 @@ class SFTPAttrs(Record):
     def _format_ns(self, k: str) -> str:
         """Convert epoch seconds & nanoseconds to a string date & time"""
 
-        result = time.ctime(getattr(self, k))
+        secs = getattr(self, k)
         nsec = getattr(self, k + '_ns')
+
+        try:
+            result = time.ctime(secs)
+        except (OverflowError, OSError, ValueError):
+            # The time is outside of the range which can be converted
+            # on this platform, so show the number of seconds instead
+            return f'{secs}.{nsec:09d}' if nsec else str(secs)
 
         if result and nsec:
             result = result[:19] + f'.{nsec:09d}' + result[19:]
